@@ -97,6 +97,14 @@ func (r *c08run) onCall(c *sim.Call) {
 			fp.ended = true
 			fp.chain = nil
 			r.events["end-or-disconnect"] = true
+			if c.Name == "Receive" && !(commit || dhkey) {
+				// the peer's disconnect also abandons a key exchange we had in flight (the library drops it:
+				// the peer's later handshake messages are ignored), so its secrets have to go as well
+				if fp.inAKE {
+					r.events["disconnect-during-ake"] = true
+				}
+				fp.inAKE, fp.akeExp, fp.akeRs = false, nil, nil
+			}
 		}
 	}
 	if c.Name == "End" {
